@@ -319,17 +319,36 @@ def run(ctx):
     ctx.model("MC_Restrict", "MC_Restrict_loop_%s.cfg" % t)          # confluence of the step-wise pruning loop
     ctx.model("MC_Restrict", "AsShipped_Restrict.cfg", expect_violation="VariantsAgree", count=False)
     cases = model_cases(ctx, states)
+    del states
     nmodel = len(cases)
     nrand = 120 if ctx.quick else 2000
     cases += random_cases(ctx, nrand)
-    driven = ctx.drive(cases, run_case, chunksize=16)
-    ctx.judge("Trace_Restrict", driven, batch=1500 if ctx.quick else 4000)
-    for case, evs in driven:
-        for e in evs:
-            o = e["outs"][0]
-            if not o["raised"] and o["h"]["n"] < e["g"]["n"]:
-                ctx.add_nontrivial([e["action"], e["g"]["par"], e["g"]["len"], e["S"], e["P"], e["top"], e["x"], e["lf"], e["inf"], e["sup"]])
-    ctx.extra["api_calls_judged"] = sum(len(e["outs"]) for _, evs in driven for e in evs)
+    # Driven and judged in chunks: the thorough tier has ~4*10^5 events, which must not all sit in memory.
+    # Only the events of traces with an unlisted failing clause are kept (they go into the replay file).
+    open_m = [f.get("match", {}) for f in core.load_findings() if f.get("property") == ID and f.get("status") == "open"]
+    ncalls = 0
+    chunk = 4000
+    for i in range(0, len(cases), chunk):
+        driven = ctx.drive(cases[i:i + chunk], run_case, chunksize=16)
+        new = ctx.judge("Trace_Restrict", driven, batch=1500 if ctx.quick else 2500)
+        for case, evs in driven:
+            for e in evs:
+                ncalls += len(e["outs"])
+                o = e["outs"][0]
+                if not o["raised"] and o["h"]["n"] < e["g"]["n"]:
+                    ctx.add_nontrivial([e["action"], e["g"]["par"], e["g"]["len"], e["S"], e["P"], e["top"], e["x"], e["lf"], e["inf"], e["sup"]])
+        if i == 0:
+            ctx.add_sample({"case": driven[5][0], "event": driven[5][1][0]})
+        if i + chunk >= len(cases):
+            ctx.add_sample({"case": driven[-1][0], "event": driven[-1][1][0]})
+        keep = set()
+        for v in new:
+            v.pop("event", None)
+            if not any(all(str(v.get(k)) == str(m[k]) for k in m) for m in open_m):
+                keep.add(v["tid"])
+        ctx.events = [e for e in ctx.events if e["tid"] in keep]
+        del driven, new
+    ctx.extra["api_calls_judged"] = ncalls
     bound = "<= 7 nodes / <= 4 leaves" if ctx.quick else "<= 9 nodes / <= 5 leaves"
     ctx.rule = ("every (tree, non-empty taxon subset, suppress) state of TLC's dump of MC_Restrict (%d inputs, trees %s, exhaustive) "
                 "x every API variant (prune/retain by taxa and labels, filter_leaf_nodes, extract_tree and its four wrappers, "
@@ -344,8 +363,6 @@ def run(ctx):
     ctx.assumptions.append("domain of the property as driven: taxa on leaves only, each taxon on at most one leaf, labels matched in their exact case, "
                            "prune_subtree only at nodes whose parent keeps another child, update_bipartitions=True only on rooted trees "
                            "(on unrooted trees encode_bipartitions collapses the basal bifurcation by design), recursive=True")
-    ctx.add_sample({"case": driven[5][0], "event": driven[5][1][0]})
-    ctx.add_sample({"case": driven[-1][0], "event": driven[-1][1][0]})
 
 
 def replay(ctx, rec):
